@@ -76,7 +76,10 @@ func RunOne(t *testing.T, job *Job, run uint64, rf *ReplayFile) RunResult {
 	ra, la := runOnce(t, &ja, run, rf)
 	rb, lb := runOnce(t, &jb, run, rf)
 	ra.Judged["C17.twin_run"]++
-	if len(ra.Violations) == 0 && len(ra.Infra) == 0 && len(rb.Infra) == 0 {
+	const depDL = "dependency_deadlock_syncsaga_recursive_rlock"
+	if ra.Inconclusive[depDL]+rb.Inconclusive[depDL] > 0 {
+		ra.Inconclusive[depDL] = 1 // one of the twins froze in the dependency: nothing to compare
+	} else if len(ra.Violations) == 0 && len(ra.Infra) == 0 && len(rb.Infra) == 0 {
 		diff := ""
 		for i := 0; i < len(la) || i < len(lb); i++ {
 			var a, b string
@@ -153,6 +156,11 @@ func runOnce(t *testing.T, job *Job, run uint64, rf *ReplayFile) (res RunResult,
 				case strings.Contains(msg, "deadlock: main bubble goroutine has exited"):
 				case strings.Contains(msg, "deadlock: all goroutines in bubble are blocked") && sch != nil && sch.Stopping():
 					// a monitor stopped the run while the root task was waiting for tasks that can no longer finish
+				case strings.Contains(msg, "deadlock: all goroutines in bubble are blocked") && sch != nil && strings.Contains(strings.Join(sch.LockWaiters(), " "), "ReadyGroup.defValidate"):
+					// known defect of the dependency syncsaga (KF-C11-5 / KF-C08-3, judged in the table world):
+					// recursive read lock with a writer queued in between. Everything that touches the engine is
+					// blocked, including the harness: the run says nothing about the property under test.
+					res.Inconclusive["dependency_deadlock_syncsaga_recursive_rlock"]++
 				default:
 					res.Infra = append(res.Infra, "bubble panic: "+msg)
 					if os.Getenv("VERIF_DEBUG_STACKS") != "" {
